@@ -4,6 +4,7 @@
 # Copies /repo to a scratch tree, applies the change there, runs the property's check against it with J2M_REPO,
 # prints the exit status and removes the scratch tree.
 name="$1"; change="$2"; prop="$3"; tier="${4:-quick}"
+case "$change" in revert:*|none) ;; /*) ;; *) change="$PWD/$change";; esac
 here="$(cd "$(dirname "${BASH_SOURCE[0]}")/.." && pwd)"
 dir="/tmp/j2m_mut_$name"
 rm -rf "$dir"; mkdir -p "$dir/tree"
